@@ -624,6 +624,10 @@ func levels(thorough bool) []level {
 		{"all-ops/len2", rep(fullAlphabet, 2), false, nil, 1},
 		{"all-ops/len3", rep(fullAlphabet, 3), false, nil, 1},
 	}
+	// a change log holding [create m2.f] [create m.*] [drop m] [create m.* again], replayed by a kill-restart (m2 keeps
+	// the field set non-empty, so the engine does not rebuild it from the stored data at open)
+	mWrites := []string{"WF", "WI", "WS", "WG"}
+	ls = append(ls, level{"other-write-drop-write-kill/len5", [][]string{{"W2"}, mWrites, {opDrop}, mWrites, {opKill}}, false, nil, 1})
 	if !thorough {
 		core4 := writeFirst(coreAlphabet, 4)
 		return append(ls,
@@ -1070,6 +1074,15 @@ func crashHistories(tier string) []CrashHistory {
 			hs = append(hs, splitAt(h, quickSplit...)...)
 		}
 	}
+	// drop and re-creation inside ONE change log (no clean close in between, so recovery replays [create m.f] [drop m]
+	// [create ...] from fields.idxl): the dropped measurement's field comes back with the same type, with another type,
+	// as another field — without and with a record of another measurement in between; cuts of the last op (including
+	// the cut after its acknowledgement). First in the list: short, and reached even when the budget share is cut.
+	// The engine rebuilds an EMPTY field set from the stored data at open (tsm1 Engine.LoadMetadataIndex), which hides
+	// whatever the replay lost: so another measurement (m2) is recorded first in three of them.
+	for _, ops := range [][]string{{"W2", "WF", opDrop, "WF"}, {"W2", "WF", opDrop, "WI"}, {"W2", "WF", opDrop, "WG"}, {"WF", opDrop, "WI"}, {"WF", "W2", opDrop, "WF"}} {
+		hs = append(hs, CrashHistory{Name: "drop-recreate", Ops: ops, From: len(ops) - 1})
+	}
 	// field create (fields.idxl append), conflicting write (no record), second field, drop (deletion record), the
 	// same field again with another type, other measurement
 	add(CrashHistory{Name: "create-conflict-drop", Ops: []string{"WF", "WI", "WG", opDrop, "WS", "W2"}, From: -1}, 1, 3, 4)
@@ -1091,6 +1104,13 @@ func crashHistories(tier string) []CrashHistory {
 	for n := 1; n <= maxLen; n++ {
 		sequences(rep(crashAlphabet, n), func(s []string) {
 			hs = append(hs, CrashHistory{Name: "seq", Ops: s, From: n - 1})
+		})
+	}
+	// every sequence of length 4 over the 4 ops whose change-log records interact (two types of m.f, another
+	// measurement, drop), cuts of the last op only
+	if maxLen >= 3 {
+		sequences(rep([]string{"WF", "WI", "W2", opDrop}, 4), func(s []string) {
+			hs = append(hs, CrashHistory{Name: "seq4", Ops: s, From: 3})
 		})
 	}
 	return hs
@@ -2117,7 +2137,7 @@ func TestCheck(t *testing.T) {
 	}
 	vlib.Main(t, &vlib.Check{
 		ID: "C10", Level: "model_checking",
-		Rule: "PART 1 histories (opseq): op alphabet {WF/WI/WS: write 2 points of m.f as float/integer/string, WG: m.g float, W2: m2.f integer, DM: DeleteMeasurement(m), SN: cache snapshot to TSM, RO: clean close+reopen, KR: kill-restart = copy of the live directory opened with the real open path}; quick: every sequence of length ≤3 over all 9 ops, every length-4 sequence over {WF,WI,DM,SN,RO,KR} starting with a write, every length-4 sequence write·{RO,KR,SN,DM}·{write,DM}·{RO,KR}; thorough: additionally length ≤3 with the default 8 tsi1 partitions and with INFLUXDB_SERIES_TYPE_CHECK_ENABLED, every length-4 sequence over all 9 ops starting with a write, every length-5 sequence over the 6 core ops starting with a write. Each history runs on a fresh real tsdb.Shard (tsm1 + tsi1 + series file + WAL; 1 tsi1 partition unless stated); every op result (error / PartialWriteError.Dropped) and the final recorded field types (MeasurementFieldSet), raw dump of all stored values and cursor reads are compared with a reference model; only the first divergence of a history is reported (all prefixes are enumerated). PART 2 schedules (vsched): 2 (thorough: one scenario with 3) real goroutines call Shard.WritePoints creating the same new field with different / equal types, from a fresh shard / a measurement that exists with another field [thorough: / a dropped measurement / series type check on]; every schedule with ≤ B preemptions (quick B=2 for float-vs-integer on a new measurement, 1 otherwise; thorough B=3 / 2) at the sync points of tsdb/shard.go, tsm1/engine.go, tsm1/cache.go, tsm1/ring.go kept by the filter (Shard.mu, MeasurementFieldSet.mu, change-log writer mutex, Engine.mu in WritePoints, Cache.mu in WriteMulti, ring partition lock); results + final schema/raw/cursor state must equal those of some sequential order of the writes. states = distinct (model schema, on-disk layout) of histories + decision nodes of the schedule trees; transitions = ops executed + scheduling steps; traces = histories + schedule executions. non-trivial = histories with a conflicting write or a restart after a drop; schedules with ≥1 preemption (distinct by construction). PART 3 crash points (crashfs; counted under the crash_* coverage keys and the crash:* outcomes, not under states/transitions/traces): histories over {WF, WI, WS, WG, W2, DM, SN, RO} performed by a writer subprocess (WriteHistory on a real shard with 1 tsi1 partition, GOMAXPROCS=1) under strace with BEGIN/ACK markers around the initial open of the empty directory and every op; the process exits without closing. Quick: 3 hand-picked histories, every cut (create-conflict-drop [WF WI WG DM WS W2]: fields.idxl creation record, conflicting write, second field, deletion record, same field with another type, other measurement, plus the initial open; fold-drop-fold [WF W2 RO DM WI RO WG]: clean close folds fields.idxl into fields.idx (fields.idx.tmp written, renamed, fields.idxl removed), drop and create on top of a fields.idx that lists the measurement, second fold; snapshot-drop [WF SN DM WI SN RO]: drop after a snapshot (TSM tombstone + deletion record)), split into 13 work items by op window (each item re-records the history and evaluates the cuts of its ops). Thorough: the same with one work item per op, create-conflict-drop with the torn images of EVERY write (WAL, tsi1 log, series file, ...), drop-twice [WF WG DM DM WF RO DM RO WS], plus EVERY sequence of length 1..3 over the 7 ops {WF, WI, WG, W2, DM, SN, RO} (cuts of the last op only, so every (prefix, cut) is evaluated once). Per history every prefix of the syscall-level event list (P: crash between any two syscalls of any file of the shard tree) and every torn length 1..n-1 of the writes to fields.idxl / fields.idx.tmp / fields.idx (T); no U images (process death; see assumptions). One evaluation = one (image, acknowledgement context) recovered in a fresh subprocess by CheckCrashRecovery: real series file + Shard.Open on the image; recorded field types, raw stored values, cursor reads; one probe write of ANOTHER type to the field of the op in flight (else m.f); second process death (directory copied without closing) + open; everything read again. Crash oracle: the shard opens; recorded field types = those of the acknowledged ops or of acknowledged ops + op in flight (as a whole); an acknowledged DeleteMeasurement leaves no field of m; stored values ⊇ those in both states and ⊆ those in either; no cursor read error; every stored value has the type recorded for its field; the probe write is rejected with Dropped=2 iff the recovered schema holds the field with another type, and is stored iff accepted; after the second restart field types and stored values are exactly those before it (a drop is not resurrected). Non-trivial crash case = a drop acknowledged before the cut, or a drop / field-creating write in flight",
+		Rule: "PART 1 histories (opseq): op alphabet {WF/WI/WS: write 2 points of m.f as float/integer/string, WG: m.g float, W2: m2.f integer, DM: DeleteMeasurement(m), SN: cache snapshot to TSM, RO: clean close+reopen, KR: kill-restart = copy of the live directory opened with the real open path}; quick: every sequence of length ≤3 over all 9 ops, the 16 sequences W2·{WF,WI,WS,WG}·DM·{WF,WI,WS,WG}·KR, every length-4 sequence over {WF,WI,DM,SN,RO,KR} starting with a write, every length-4 sequence write·{RO,KR,SN,DM}·{write,DM}·{RO,KR}; thorough: additionally length ≤3 with the default 8 tsi1 partitions and with INFLUXDB_SERIES_TYPE_CHECK_ENABLED, every length-4 sequence over all 9 ops starting with a write, every length-5 sequence over the 6 core ops starting with a write. Each history runs on a fresh real tsdb.Shard (tsm1 + tsi1 + series file + WAL; 1 tsi1 partition unless stated); every op result (error / PartialWriteError.Dropped) and the final recorded field types (MeasurementFieldSet), raw dump of all stored values and cursor reads are compared with a reference model; only the first divergence of a history is reported (all prefixes are enumerated). PART 2 schedules (vsched): 2 (thorough: one scenario with 3) real goroutines call Shard.WritePoints creating the same new field with different / equal types, from a fresh shard / a measurement that exists with another field [thorough: / a dropped measurement / series type check on]; every schedule with ≤ B preemptions (quick B=2 for float-vs-integer on a new measurement, 1 otherwise; thorough B=3 / 2) at the sync points of tsdb/shard.go, tsm1/engine.go, tsm1/cache.go, tsm1/ring.go kept by the filter (Shard.mu, MeasurementFieldSet.mu, change-log writer mutex, Engine.mu in WritePoints, Cache.mu in WriteMulti, ring partition lock); results + final schema/raw/cursor state must equal those of some sequential order of the writes. states = distinct (model schema, on-disk layout) of histories + decision nodes of the schedule trees; transitions = ops executed + scheduling steps; traces = histories + schedule executions. non-trivial = histories with a conflicting write or a restart after a drop; schedules with ≥1 preemption (distinct by construction). PART 3 crash points (crashfs; counted under the crash_* coverage keys and the crash:* outcomes, not under states/transitions/traces): histories over {WF, WI, WS, WG, W2, DM, SN, RO} performed by a writer subprocess (WriteHistory on a real shard with 1 tsi1 partition, GOMAXPROCS=1) under strace with BEGIN/ACK markers around the initial open of the empty directory and every op; the process exits without closing. Quick: 5 drop-recreate histories ([W2 WF DM WF], [W2 WF DM WI], [W2 WF DM WG], [WF DM WI], [WF W2 DM WF]: m2 first keeps the field set non-empty so that the engine does not rebuild it from the stored data at open; the change log holds create m.f, drop m, create again — replayed by an unclean restart; cuts of the last op incl. the one after its acknowledgement) and 3 hand-picked histories, every cut (create-conflict-drop [WF WI WG DM WS W2]: fields.idxl creation record, conflicting write, second field, deletion record, same field with another type, other measurement, plus the initial open; fold-drop-fold [WF W2 RO DM WI RO WG]: clean close folds fields.idxl into fields.idx (fields.idx.tmp written, renamed, fields.idxl removed), drop and create on top of a fields.idx that lists the measurement, second fold; snapshot-drop [WF SN DM WI SN RO]: drop after a snapshot (TSM tombstone + deletion record)), the 3 split into 13 work items by op window (each item re-records the history and evaluates the cuts of its ops). Thorough: the same with one work item per op, create-conflict-drop with the torn images of EVERY write (WAL, tsi1 log, series file, ...), drop-twice [WF WG DM DM WF RO DM RO WS], plus EVERY sequence of length 1..3 over the 7 ops {WF, WI, WG, W2, DM, SN, RO} and of length 4 over {WF, WI, W2, DM} (cuts of the last op only, so every (prefix, cut) is evaluated once). Per history every prefix of the syscall-level event list (P: crash between any two syscalls of any file of the shard tree) and every torn length 1..n-1 of the writes to fields.idxl / fields.idx.tmp / fields.idx (T); no U images (process death; see assumptions). One evaluation = one (image, acknowledgement context) recovered in a fresh subprocess by CheckCrashRecovery: real series file + Shard.Open on the image; recorded field types, raw stored values, cursor reads; one probe write of ANOTHER type to the field of the op in flight (else m.f); second process death (directory copied without closing) + open; everything read again. Crash oracle: the shard opens; recorded field types = those of the acknowledged ops or of acknowledged ops + op in flight (as a whole); an acknowledged DeleteMeasurement leaves no field of m; stored values ⊇ those in both states and ⊆ those in either; no cursor read error; every stored value has the type recorded for its field; the probe write is rejected with Dropped=2 iff the recovered schema holds the field with another type, and is stored iff accepted; after the second restart field types and stored values are exactly those before it (a drop is not resurrected). Non-trivial crash case = a drop acknowledged before the cut, or a drop / field-creating write in flight",
 		Assumptions: []string{
 			"a kill-restart image is the directory tree as the page cache holds it while the process is alive and idle (every completed write(2) present); torn / unsynced images belong to the crash part (crashfs)",
 			"background compactions and the automatic cache snapshotter are off; snapshots are taken by the SN op",
@@ -2133,7 +2153,7 @@ func TestCheck(t *testing.T) {
 		Run: func(c *vlib.Ctx) {
 			// order: short histories (length ≤ 3), then the schedules, then the deeper history levels, so that
 			// a capped run still covers both quantifiers
-			const shallow = 4 // number of leading levels of length ≤ 3 (same in both tiers)
+			const shallow = 5 // number of leading levels run before the schedules: length ≤ 3 and the 16 drop-recreate-kill sequences (same in both tiers)
 			var idx int64
 			part := os.Getenv("C10_PART")
 			if part == "" || part == "crash" {
